@@ -48,6 +48,7 @@ type Exec struct {
 	Panics  []PanicCond
 	Unwinds []Unwind
 
+	Known      map[*Term]bool // literals fixed by unconditional assumptions (see noteKnown)
 	Intrinsics map[string]Intrinsic
 
 	LoopBound   int            // default unrolling bound for data-dependent loops
@@ -539,7 +540,7 @@ func (x *Exec) step(f *frame, b *ssa.BasicBlock, ins ssa.Instruction) {
 	switch ins := ins.(type) {
 	case *ssa.DebugRef:
 	case *ssa.If:
-		cond := x.term(f, ins.Cond)
+		cond := x.knownCond(x.term(f, ins.Cond))
 		f.condConst[b] = cond.IsConst()
 		if x.Trace && !cond.IsConst() && f.fn.Name() == "vpPathEmpty" {
 			fmt.Printf("      sym cond in %s block %d: %v op=%d args=%v\n", f.fn.Name(), b.Index, cond, cond.Op, cond.Args)
@@ -1300,17 +1301,22 @@ func (x *Exec) builtin(f *frame, b *ssa.Builtin, call *ssa.CallCommon, args []Va
 		_, sg, _ := widthOf(call.Args[0].Type())
 		for _, a := range args[1:] {
 			at := a.(*Term)
-			var lt *Term
+			// canonical operand order, so that max(p,q) and max(q,p) are the identical term
+			lo, hi := res, at
+			if lo.ID > hi.ID {
+				lo, hi = hi, lo
+			}
+			var lt *Term // lo < hi
 			if sg {
-				lt = c.Slt(at, res)
+				lt = c.Slt(lo, hi)
 			} else {
-				lt = c.Ult(at, res)
+				lt = c.Ult(lo, hi)
 			}
 			if b.Name() == "max" {
-				lt = c.Not(c.Or(lt, c.Eq(at, res)))
-				// at > res
+				res = c.Ite(lt, hi, lo)
+			} else {
+				res = c.Ite(lt, lo, hi)
 			}
-			res = c.Ite(lt, at, res)
 		}
 		return res
 	case "append":
